@@ -137,6 +137,25 @@ CLAIMED = {
         'design_ref': 'DESIGN.md section 5 C18; NOTES-derive.md',
         'technique': 'Coq proof on a model of the macro checks + negative/positive generated-crate correspondence through rustc',
     },
+    'C08': {
+        'category': 'proof',
+        'text': ('Kernel-checked on a transcription of every built-in BorshSchema impl and of the derive\'s schema expansion (declaration strings, DFS order of add_definition calls, no_recursion_flag, assert on conflicting redefinition): '
+                 'the container of a type defines its root and every declaration it references and contains nothing else than the add_definition calls reachable from the type (C08_closed, C08_monotone); every primitive\'s schema width equals its wire width (C08_widths, over the table transcribed '
+                 'entry by entry). PARTIAL: the schema-only decoding statement is FALSE at full strength (C08_decodes_refuted, finding F13: two different types with one name under an equal-looking outer struct slip past the conflict assert) and its restriction to name-coherent types, '
+                 'C08_validates and the C14 agreement clause are covered by computed instances, by an implementation-side schema interpreter (the property oracle: uses only the implementation\'s container on the implementation\'s bytes) and by correspondence, not yet by general theorems. '
+                 + CORR + ' for_type/validate/max_size vs the model for the 323 catalogue types with a schema and hand-written derived items; derive acceptance (F9 witness) in the C18 corpus.'),
+        'design_ref': 'DESIGN.md section 5 C08; NOTES-schemaof.md',
+        'technique': 'Coq proof (closure/provenance of schema_of) + schema-interpreter oracle + differential correspondence',
+    },
+    'C17': {
+        'category': 'proof',
+        'text': ('Kernel-checked: writing a value with its schema and reading it back with the same type returns the logical value (C17_round_trip, both strictness settings); reading with a type whose container differs is rejected with the schema-mismatch error or an earlier '
+                 'InvalidData decode error (C17_foreign); for EVERY input acceptance implies that the schema part decoded to exactly the reader\'s own container, every refusal is InvalidData, never a panic (C17_corrupt, C17_corrupt_rejected); the container codec round-trips and '
+                 'emits definitions in ascending name order (C17_container_canonical = C01 at the container\'s own wire type). Hypothesis: the container is a Rust value (names UTF-8, numbers in range, keys ascending) — decidable, true of every schema_of result exercised. '
+                 + CORR + ' Ordered pairs of types, mutated schema prefixes, arbitrary containers through the real container codec vs the model\'s and a Python encoder.'),
+        'design_ref': 'DESIGN.md section 5 C17; NOTES-schemaof.md',
+        'technique': 'Coq proof (C01/C05 instantiated at the container type + equality test) + differential correspondence',
+    },
     'C09': {
         'category': 'proof',
         'text': ('Kernel-checked on a statement-by-statement transcription of max_serialized_size_impl/is_zero_size_impl (explicit stack, count multiplier, checked arithmetic, every early return): '
